@@ -10,7 +10,7 @@ Clauses(s, o) ==
       ok == {Shown(c, fb) : c \in Allowed(s.backend, s.q, s.a, s.acct)}
       (* the other target of the workflow: its own job runs, or has failed *)
       oth == IF s.other = "run" THEN {"running"}
-             ELSE IF s.backend = "lsf" \/ (s.backend = "slurm" /\ s.acct) THEN {"failed"} ELSE {"completed"} IN
+             ELSE IF s.backend \in {"lsf", "local"} \/ (s.backend = "slurm" /\ s.acct) THEN {"failed"} ELSE {"completed"} IN
   [ C08_class |-> o.exit = 0 /\ o.shown \in ok,
     (* the other target's job and a foreign job never leak into this target's state *)
     C08_own_job_only |-> o.exit = 0 /\ o.shown \in ok /\ o.other_shown \in oth,
